@@ -406,3 +406,35 @@ def _arith_ref(ctx, a, ty, c):
     if ctx.branch([z3.Not(ovf), ovf]) == 1:
         raise PathEnd("panic", "attempt to %s with overflow (%s)" % (op, c))
     return r.fields[0]
+
+
+@summary(r"^core::num::<impl (u\d+|usize)>::checked_(add|sub|mul)$")
+def _checked(ctx, a, ty, c):
+    x, y = ctx.force(a[0]), ctx.force(a[1])
+    op = c.rsplit("_", 1)[1]
+    name = {"add": "AddWithOverflow", "sub": "SubWithOverflow", "mul": "MulWithOverflow"}[op]
+    r = ctx.binop(name, x, y)
+    ovf = r.fields[1].e
+    if ctx.branch([z3.Not(ovf), ovf]) == 0:
+        return some(ty, r.fields[0])
+    return none(ty)
+
+
+@summary(r"^Option::<.*>::filter::<.*>$")
+def _opt_filter(ctx, a, ty, c):
+    v, name = enum_variant(ctx, ctx.as_agg(a[0]))
+    if name == "None":
+        return none(ty)
+    x = payload(ctx, v)
+    keep = ctx.force(call_closure(ctx, a[1], [Ref(Cell(x, "filter-arg"), ())]))
+    if ctx.branch([keep.e, z3.Not(keep.e)]) == 0:
+        return some(ty, x)
+    return none(ty)
+
+
+@summary(r"^<(u\d+|usize) as Ord>::(min|max)$|^Ord::(min|max)$|^std::cmp::(min|max)::<(u\d+|usize)>$")
+def _minmax(ctx, a, ty, c):
+    x, y = ctx.force(a[0]), ctx.force(a[1])
+    if c.endswith("min") or "::min::" in c:
+        return Int(z3.If(z3.ULE(x.e, y.e), x.e, y.e), x.bits)
+    return Int(z3.If(z3.UGE(x.e, y.e), x.e, y.e), x.bits)
